@@ -50,6 +50,12 @@ func c18Pool() []c18Type {
 		{"typed_enum", reflect.TypeOf(namedStr("")), func() schema.Type {
 			return schema.NewTypedStringEnumSchema(map[namedStr]*schema.DisplayValue{"x": nil, "y": nil})
 		}, func(i int) any { return namedStr("x") }},
+		{"list[typed_enum]", reflect.TypeOf([]namedStr{}), func() schema.Type {
+			return schema.NewListSchema(schema.NewTypedStringEnumSchema(map[namedStr]*schema.DisplayValue{"x": nil, "y": nil}), nil, nil)
+		}, func(i int) any { return []namedStr{"x", "y"}[:1+i%2] }},
+		{"map[int]list[string]", reflect.TypeOf(map[int64][]string{}), func() schema.Type {
+			return schema.NewMapSchema(schema.NewIntSchema(nil, nil, nil), schema.NewListSchema(schema.NewStringSchema(nil, nil, nil), nil, nil), nil, nil)
+		}, func(i int) any { return map[int64][]string{int64(i): {"a"}} }},
 	}
 }
 
@@ -79,18 +85,20 @@ func c18Results() []c18Res {
 }
 
 // refAccept is the reference statement of the acceptance rule.
-func refAcceptStatic(in []reflect.Type, out []reflect.Type, declIn []schema.Type, declOut schema.Type, outputsError bool) (bool, string) {
+func refAcceptStatic(in []reflect.Type, out []reflect.Type, declIn []reflect.Type, declOut reflect.Type, outputsError bool) (bool, string) {
+	// declIn / declOut are the native Go types of the declared schemas as the harness knows them (from the pool),
+	// not what the SDK's ReflectedType() says about them
 	if len(in) != len(declIn) {
 		return false, "param-count"
 	}
 	for i := range in {
-		if in[i] != declIn[i].ReflectedType() {
+		if in[i] != declIn[i] {
 			return false, "param-type"
 		}
 	}
 	var want []reflect.Type
 	if declOut != nil {
-		want = append(want, declOut.ReflectedType())
+		want = append(want, declOut)
 	}
 	if outputsError {
 		want = append(want, errIface)
@@ -118,10 +126,39 @@ var errHandler = errors.New("handler-reported failure")
 // mis-calling another function, or that wrapped with %w. All of them are errors *the handler returned*.
 var errNestedShape = schema.NewFunctionCallError(errors.New("inner call had the wrong number of arguments"), false)
 var errWrappedShape = fmt.Errorf("handler could not finish: %w", errNestedShape)
-var c18HandlerErrors = []error{nil, errHandler, errNestedShape, errWrappedShape}
+
+// c18PtrErr is an error type with pointer receivers; a nil *c18PtrErr returned as an error is a non-nil error.
+type c18PtrErr struct{ msg string }
+
+func (e *c18PtrErr) Error() string {
+	if e == nil {
+		return "typed nil error"
+	}
+	return e.msg
+}
+
+// c18SameErr: identical error values (types that cannot be compared with == are compared deeply).
+func c18SameErr(a, b error) bool {
+	if a == nil || b == nil {
+		return a == nil && b == nil
+	}
+	if reflect.TypeOf(a) != reflect.TypeOf(b) {
+		return false
+	}
+	if reflect.TypeOf(a).Comparable() {
+		return a == b
+	}
+	return reflect.DeepEqual(a, b)
+}
+
+type c18SliceErr []string
+
+func (e c18SliceErr) Error() string { return fmt.Sprint("slice error ", len(e)) }
+
+var c18HandlerErrors = []error{nil, errHandler, errNestedShape, errWrappedShape, (*c18PtrErr)(nil), c18SliceErr(nil), &c18PtrErr{"pointer error"}}
 
 func runC18(c *wk.Ctx) {
-	c.Meta("rule", "exhaustive matrix: handler parameter lists of length 0..3 over 11 native types (incl. a named string type and two schemas sharing int64) x 11 result shapes (none, value, error, value+error, extra results, non-error last, a non-error type NAMED error, an interface named error, error first) x declared inputs {exact, one type swapped, one dropped, one added} x declared output {nil, matching, other} x error flag, for NewCallableFunction; the dynamic constructor over the same handlers; every accepted function is called with 0..4 arguments, with nil and non-nil handler errors; variadic handlers as an extra column. distinct = hash of (handler signature, declaration); all cases non-trivial")
+	c.Meta("rule", "exhaustive matrix: handler parameter lists of length 0..3 over 13 native types (incl. a named string type, a list of it, a map of lists and two schemas sharing int64) x 11 result shapes (none, value, error, value+error, extra results, non-error last, a non-error type NAMED error, an interface named error, error first) x declared inputs {exact, one type swapped, one dropped, one added} x declared output {nil, matching, other} x error flag, for NewCallableFunction; the dynamic constructor over the same handlers; every accepted function is called with 0..4 arguments, with nil and non-nil handler errors (incl. typed-nil pointer and nil-slice error values); variadic handlers as an extra column. distinct = hash of (handler signature, declaration); all cases non-trivial")
 	c.Meta("assumptions", []string{"handlers are synthesised with reflect.MakeFunc, so only signatures (not bodies) vary", "non-func / nil handlers and wrongly typed call arguments are outside the property's quantifier"})
 	c.Meta("exhaustive", true)
 	c.Floor("constructor_calls", 10000)
@@ -209,30 +246,35 @@ func runC18(c *wk.Ctx) {
 		type declIn struct {
 			name string
 			ts   []schema.Type
+			nat  []reflect.Type // the native Go types of ts, as the pool declares them
 		}
 		exact := make([]schema.Type, len(pl))
+		exactNat := make([]reflect.Type, len(pl))
 		for i, t := range pl {
-			exact[i] = pool[t].mk()
+			exact[i], exactNat[i] = pool[t].mk(), pool[t].typ
 		}
-		dins := []declIn{{"exact", exact}}
+		dins := []declIn{{"exact", exact, exactNat}}
 		if len(pl) > 0 {
 			k := r.Intn(len(pl))
 			sw := append([]schema.Type{}, exact...)
+			swNat := append([]reflect.Type{}, exactNat...)
 			other := (pl[k] + 1 + r.Intn(len(pool)-1)) % len(pool)
-			sw[k] = pool[other].mk()
-			dins = append(dins, declIn{"swapped", sw})
-			dins = append(dins, declIn{"dropped", append(append([]schema.Type{}, exact[:k]...), exact[k+1:]...)})
+			sw[k], swNat[k] = pool[other].mk(), pool[other].typ
+			dins = append(dins, declIn{"swapped", sw, swNat})
+			dins = append(dins, declIn{"dropped", append(append([]schema.Type{}, exact[:k]...), exact[k+1:]...), append(append([]reflect.Type{}, exactNat[:k]...), exactNat[k+1:]...)})
 		}
-		dins = append(dins, declIn{"added", append(append([]schema.Type{}, exact...), pool[r.Intn(len(pool))].mk())})
+		added := pool[r.Intn(len(pool))]
+		dins = append(dins, declIn{"added", append(append([]schema.Type{}, exact...), added.mk()), append(append([]reflect.Type{}, exactNat...), added.typ)})
 		otherOut := pool[(indexOf(pool, v.name)+1+r.Intn(len(pool)-1))%len(pool)]
 		douts := []struct {
 			name string
 			t    schema.Type
-		}{{"nil", nil}, {"match:" + v.name, v.mk()}, {"other:" + otherOut.name, otherOut.mk()}}
+			nat  reflect.Type
+		}{{"nil", nil, nil}, {"match:" + v.name, v.mk(), v.typ}, {"other:" + otherOut.name, otherOut.mk(), otherOut.typ}}
 		for _, di := range dins {
 			for _, do := range douts {
 				for _, oe := range []bool{false, true} {
-					want, reason := refAcceptStatic(in, out, di.ts, do.t, oe)
+					want, reason := refAcceptStatic(in, out, di.nat, do.nat, oe)
 					var fn schema.CallableFunction
 					var err error
 					p, site, msg, _ := wk.Guard(func() {
@@ -268,10 +310,10 @@ func runC18(c *wk.Ctx) {
 				}
 			}
 			// dynamic constructor: accepted iff params agree and results are exactly (any, error)
-			wantDyn := len(in) == len(di.ts)
+			wantDyn := len(in) == len(di.nat)
 			if wantDyn {
 				for i := range in {
-					if in[i] != di.ts[i].ReflectedType() {
+					if in[i] != di.nat[i] {
 						wantDyn = false
 					}
 				}
@@ -372,7 +414,7 @@ func c18Calls(c *wk.Ctx, fn schema.CallableFunction, pool []c18Type, pl []int, h
 			if withErr {
 				if err == nil {
 					c.Violation("C18:call:handler-error-lost:"+kind, "handler returned an error but Call returned nil", w)
-				} else if fce2, ok := err.(*schema.FunctionCallError); !ok || !fce2.IsFunctionReportedError || fce2.SourceError != c18HandlerErrors[errMode] {
+				} else if fce2, ok := err.(*schema.FunctionCallError); !ok || !fce2.IsFunctionReportedError || !c18SameErr(fce2.SourceError, c18HandlerErrors[errMode]) {
 					w["handler_error"] = fmt.Sprintf("%#v", c18HandlerErrors[errMode])
 					c.Violation("C18:call:handler-error-misattributed:"+kind, fmt.Sprintf("handler returned %q but Call reported %#v (must be function-reported and carry exactly the handler's error)", c18HandlerErrors[errMode], err), w)
 				}
